@@ -314,7 +314,7 @@ def main(tier, seed, scale=1.0):
         r.shuffle(hists)
         keep = [h for h in hists if len(h) <= 2] + [h for h in hists if len(h) == 3][:150]
         hists = keep + mm[:16]
-    nrand = 30 if q else 1500
+    nrand = 30 if q else 6000
     for _ in range(nrand):
         n = r.randint(4, 6)
         h = tuple(r.choice(light if r.random() < 0.9 else SYMS) for _ in range(n))
